@@ -27,6 +27,11 @@
 #include "Compiler/include/ParserGenerator/lrparser.hpp"
 #include "VM/include/vm.hpp"
 
+#if defined(__SANITIZE_ADDRESS__)
+#include <sanitizer/lsan_interface.h>
+#define VERIF_LEAK_CHECK 1
+#endif
+
 using namespace Theo;
 
 static std::string hex(const std::string &s) {
@@ -608,6 +613,10 @@ int main(int argc, char **argv) {
       alarm(tmo);
       printf("%s ", id.c_str());
       run_case(tk);
+#ifdef VERIF_LEAK_CHECK
+      // memory still reachable from nowhere after the case has returned is a leak of the library
+      if (__lsan_do_recoverable_leak_check()) printf("%s LEAK\n", id.c_str());
+#endif
       fflush(stdout);
       _exit(0);
     }
